@@ -109,28 +109,38 @@ def callable : V → Bool
   | .host _ c _ _ => c
   | _ => false
 
-/-- `KValue::is_indexable` -/
-def indexable : V → Bool
-  | .list _ => true
-  | .map _ => true
-  | .obj _ _ _ _ => true
-  | .str _ => true
-  | .tuple _ => true
-  | .host _ _ i _ => i
-  | _ => false
+/-- the `KValue` variant of a value that is not a function, a map with a metamap or a host object -/
+def plainKind : V → Option Kind
+  | .null => some .null
+  | .bool _ => some .bool
+  | .int _ => some .number
+  | .float _ => some .number
+  | .str _ => some .str
+  | .range _ _ => some .range
+  | .list _ => some .list
+  | .tuple _ => some .tuple
+  | .map _ => some .map
+  | .iter _ => some .iterator
+  | .gen _ _ _ _ => some .iterator
+  | _ => none
 
-/-- `KValue::is_iterable` -/
+/-- `KValue::is_indexable` (the variants come from the generated table `indexableKind`) -/
+def indexable : V → Bool
+  | .obj _ _ _ _ => indexableKind .map
+  | .host _ _ i _ => i
+  | v =>
+    match plainKind v with
+    | some k => indexableKind k
+    | none => false
+
+/-- `KValue::is_iterable` (generated: `iterableKind`, `objIterableNeedsKeys`) -/
 def iterable : V → Bool
-  | .range _ _ => true
-  | .list _ => true
-  | .tuple _ => true
-  | .str _ => true
-  | .iter _ => true
-  | .gen _ _ _ _ => true
-  | .map _ => true
-  | .obj _ fl _ _ => fl.iter || fl.next
+  | .obj _ fl _ _ => if objIterableNeedsKeys then fl.iter || fl.next else true
   | .host _ _ _ i => i
-  | _ => false
+  | v =>
+    match plainKind v with
+    | some k => iterableKind k
+    | none => false
 
 def holds : Special → V → Bool
   | .always, _ => true
